@@ -9,7 +9,7 @@ PROP = dict(
         dict(module="Tiered", cfg="MC_Tiered_design.cfg", tiers=("thorough",), timeout=3600),
         dict(module="Tiered", cfg="MC_Tiered_asbuilt_untagged.cfg", tiers=("thorough",), timeout=3600, coverage=False),
         dict(module="Tiered", cfg="MC_Tiered_design2w.cfg", tiers=("thorough",), timeout=3600)],
-    schedules=dict(module="Tiered", sim_cfg="MC_Tiered_sim.cfg", depth=40, num={"quick": 60, "thorough": 1500},
+    schedules=dict(module="Tiered", sim_cfg="MC_Tiered_sim.cfg", depth=40, num={"quick": 60, "thorough": 800},
                    cex_quick=["MC_Tiered_asbuilt_OnlyF09a.cfg", "MC_Tiered_asbuilt_CompleteReadable.cfg",
                               "MC_Tiered_goal_DelMdPressure.cfg", "MC_Tiered_goal_PressureDuringCopy.cfg"],
                    cex=["MC_Tiered_asbuilt_OnlyF09a.cfg", "MC_Tiered_asbuilt_CompleteReadable.cfg", "MC_Tiered_asbuilt_MdReflectsUpdates.cfg",
